@@ -2,6 +2,7 @@
 From Coq Require Import List String Ascii NArith ZArith Bool.
 From Piko Require Import Base.Maps Base.Strs Proxy.Endpoint Proxy.Http Proxy.Route ProxyP.Final.
 From Piko Require Upstream.Manager Compose.EndToEnd Compose.Settled Compose.Example.
+From Piko Require Import Proxy.UrlPath ProxyP.UrlPathP.
 Import ListNotations.
 Open Scope string_scope. Open Scope list_scope.
 
@@ -124,6 +125,29 @@ Proof. exact x_pre_ok. Qed.
 Example C01_witness_repaired : res_out (deliver w_c2 (w_env true) 0 w_rq2) = Status 502.
 Proof. exact c01_witness_repaired. Qed.
 
+(* "a tunnelled TCP connection addressed to endpoint E ... is never delivered to an upstream of a different endpoint" - on
+   the way from the client to the route. client.Dialer (and client.Upstream for a listen) put the endpoint id into the URL
+   path; url.URL.String() escapes it, the server's net/http decodes the request target and gin matches
+   `/_piko/v1/tcp/:endpointID` (Proxy/UrlPath.v models net/url's escape / unescape in path mode and the route match). For
+   EVERY byte string: what the server decodes is what the client named (C01_url_roundtrip); the id is routed under its own
+   name or not at all (C01_dialled_only_named), and an id that is one non-empty path segment is routed
+   (C01_dialled_is_named). The variant that appends the id to the rendered URL (seeded change C01-14) reaches another
+   endpoint's route. Tied to the real client and the real request parser + gin on ~190 ids per run. *)
+Theorem C01_url_roundtrip : forall s, unescape_path (escape_path s) = Some s.
+Proof. exact unescape_escape. Qed.
+
+Theorem C01_dialled_only_named : forall prefix id e, dialled_endpoint prefix id = Some e -> e = id.
+Proof. exact dialled_only_named. Qed.
+
+Theorem C01_dialled_is_named : forall prefix id, has_slash id = false -> id <> "" -> dialled_endpoint prefix id = Some id.
+Proof. exact dialled_is_named. Qed.
+
+Theorem C01_url_concat_variant_refuted :
+  dialled_endpoint_concat tcp_prefix "db?replica" = Some "db" /\ dialled_endpoint tcp_prefix "db?replica" = Some "db?replica" /\
+  dialled_endpoint_concat tcp_prefix "cach%65" = Some "cache" /\ dialled_endpoint tcp_prefix "cach%65" = Some "cach%65" /\
+  escape_path (tcp_prefix ++ "a b#c?d%") = "/_piko/v1/tcp/a%20b%23c%3Fd%25".
+Proof. exact concat_variant_refuted. Qed.
+
 Print Assumptions C01_only_addressed_endpoint.
 Print Assumptions C01_settled.
 Print Assumptions C01_tcp_route.
@@ -131,3 +155,7 @@ Print Assumptions C01_refuted_pinned.
 Print Assumptions C01_settled_from_convergence.
 Print Assumptions C01_end_to_end.
 Print Assumptions C01_end_to_end_example.
+Print Assumptions C01_url_roundtrip.
+Print Assumptions C01_dialled_only_named.
+Print Assumptions C01_dialled_is_named.
+Print Assumptions C01_url_concat_variant_refuted.
